@@ -13,21 +13,35 @@ def _field_switches(f, field):
     return sorted(set(sw for sw, tt, ft in PR.field_bool_switches(f, field)))
 
 
-def _limit_switches(f):
-    """switches that test output.reached_limit directly, or the bool returned by a local helper that reads reached_limit"""
-    sws = _field_switches(f, "reached_limit")
+def limit_edges(f):
+    """{switch block: target taken when the limit is reached}: switches on output.reached_limit read directly, through copies /
+    negation, or carried out of an (inlined or called) helper inside Ok(..) / a bool result"""
+    out = {sw: tt for sw, tt, ft in PR.field_bool_switches(f, "reached_limit")}
     P = f.prog
+    helper_calls = []
     for c in f.calls:
         for k in P.callee_keys(f, c):
             g = P.fns.get(k)
-            if g is None or not PR.field_reads(g, "reached_limit"):
-                continue
-            for sw in sorted(f.reach):
-                t = f.blocks[sw]["term"]
-                if t["k"] == "switch" and t["discr"].get("ty") == "bool":
-                    if any(o.kind == "call" and o.call is c for o in F.origins(f, t["discr"], depth=12)):
-                        sws.append(sw)
-    return sorted(set(sws))
+            if g is not None and PR.field_reads(g, "reached_limit"):
+                helper_calls.append(c)
+    for sw in sorted(f.reach):
+        t = f.blocks[sw]["term"]
+        if t["k"] != "switch" or t["discr"].get("ty") != "bool" or sw in out:
+            continue
+        os_ = F.origins(f, t["discr"], depth=14)
+        hit = "reached_limit" in F.provenance_fields(f, t["discr"]) or any(o.kind == "call" and o.call in helper_calls for o in os_)
+        if not hit:
+            continue
+        zero = [b for v, b in t["targets"] if v == "0"]
+        if not zero:
+            continue
+        pos, _ = F.bool_edge_polarity(f, sw, "otherwise")
+        out[sw] = t["otherwise"] if pos else zero[0]
+    return out
+
+
+def _limit_switches(f):
+    return sorted(limit_edges(f))
 
 
 def _cut_length_problems(P, f, op, depth=2):
@@ -106,8 +120,7 @@ def run(R):
             continue
         for sw in sws:
             t = f.blocks[sw]["term"]
-            pol = {sw_: tt_ for sw_, tt_, ft_ in PR.field_bool_switches(f, "reached_limit")}
-            true_t = pol.get(sw, t["otherwise"])
+            true_t = limit_edges(f).get(sw, t["otherwise"])
             after = f.reachable_from(true_t)
             cons = [c for c in L.consuming_calls(f) if c.bb in after]
             if cons:
